@@ -49,6 +49,17 @@ func (e *NamePolicyEngine) validateNames(dnsNames []string, ips []net.IP, emailA
 		didCutWildcard := false
 		parsedDNS := dns
 		if strings.HasPrefix(parsedDNS, "*.") {
+			// literal wildcard names are only allowed when explicitly enabled; without
+			// this check a wildcard name would never match an excluded constraint and
+			// would thus be allowed by a policy that only has excluded DNS constraints.
+			if !e.allowLiteralWildcardNames {
+				return &NamePolicyError{
+					Reason:   NotAllowed,
+					NameType: DNSNameType,
+					Name:     dns,
+					detail:   fmt.Sprintf("dns %q is a wildcard name and wildcard names are not allowed", dns),
+				}
+			}
 			parsedDNS = parsedDNS[1:]
 			didCutWildcard = true
 		}
